@@ -60,6 +60,8 @@ func runC13(p *Prog, r *Report) {
 	for _, c := range stateConfigs() {
 		ruleState(p, r, fx, c)
 	}
+	r.Explain = append(r.Explain, "R-STATE/array: P-FX does not track the elements of array-typed fields; each element of Buffer.context (the text before / after the run) is reset on every path to every return of Buffer.Clear, by a store with a constant index or a call of a function whose parameter indexes the store (clearContext(0), clearContext(1)).")
+	ruleArrayReset(p, r, "harfbuzz", "Buffer", "context", fnRef{"harfbuzz", "Buffer", "Clear"})
 }
 
 // staleAllowed: the fields whose kept storage is re-extended in place, each confirmed by reading.
@@ -83,6 +85,7 @@ func stateConfigs() []stateCfg {
 				"Font.Ptem":               "ctor-only: public knob that the module never assigns (zero from NewFont)",
 				"HarfbuzzShaper.buf":      "identity of the owned buffer, allocated on first use; its state is cleared by Buffer.Clear on every later use (its fields are checked here)",
 				"HarfbuzzShaper.features": "scratch: re-sliced to len(input.FontFeatures) and every element assigned before it is handed to the buffer",
+				"Buffer.context":          "array field (P-FX does not track array elements): both sides are reset by Buffer.Clear, which R-STATE/array decides; shape() saves and restores the pair around the direction reversal",
 			}},
 		{name: "harfbuzz.Buffer",
 			types:   []typeRef{{"harfbuzz", "Buffer"}},
@@ -130,6 +133,10 @@ func runC14(p *Prog, r *Report) {
 
 func controlsC13(cp *Prog, r *Report) {
 	controlsState(cp, r)
+	expectControl(r, "R-STATE/array", func(cr *Report) {
+		ruleArrayReset(cp, cr, "reuse", "abuf", "ctx", fnRef{"reuse", "abuf", "Clear"})
+		ruleArrayReset(cp, cr, "reuse", "abufBad", "ctx", fnRef{"reuse", "abufBad", "Clear"})
+	}, "abufBad.ctx[1]/(*reuse.abufBad).Clear")
 	expectControl(r, "R-STALE", func(cr *Report) {
 		ruleStale(cp, cr, map[string]string{"gbuf.pos": "listed", "Buf.Pos": "listed (control of another rule)"}, 3)
 	}, "gbuf.info/(*reuse.gbuf).addBad")
